@@ -4,7 +4,7 @@
    Proofs/CatalogueInv.v.  `repaired c` = the code after fix-F-C15a.diff and fix-F-C15b.diff (fix_c free:
    both variants of IndexedStringField.__init__ are covered). *)
 From Coq Require Import ZArith List Bool.
-From EV Require Import Res Catalogue CatalogueSpec CatalogueBase CatalogueInv CatalogueRename CatalogueStep CatalogueObs CatalogueData CatalogueHandles CatalogueVerdicts CatalogueTrace CatalogueWitness.
+From EV Require Import Res Catalogue CatalogueSpec CatalogueIdentSpec CatalogueBase CatalogueInv CatalogueRename CatalogueRenameOk CatalogueStep CatalogueObs CatalogueData CatalogueHandles CatalogueVerdicts CatalogueTrace CatalogueWitness CatalogueIdent CatalogueIdentTrace.
 Import ListNotations.
 Open Scope Z_scope.
 
@@ -115,6 +115,69 @@ Theorem c15_step_verdicts : forall c p s s' r held,
   all_true (verdicts p (is_ok r) (observe s held) (observe s' (rescan s' held))) = true.
 Proof. exact step_verdicts. Qed.
 Print Assumptions c15_step_verdicts.
+
+(* ---- (3b) FULL: WHEN rename succeeds.  In a consistent state ds_i[d].rename(m) returns exactly when the keys of m are
+   distinct column names and the resulting names are distinct — for every order in which the columns were created (the
+   order of the two passes, hence the choice of the temporary names) and every names, '_'-suffixed variants of one another
+   included.  So every permutation / cycle / chain / identity mapping of any number of columns is carried out
+   (c15_rename_all_or_nothing then says what the frame lists).  Examples computed on the model:
+   CatalogueRenameOk.three_cycle_computed (columns created as a_, a__, a), two_swaps_computed (a, b_, a_, b). *)
+Theorem c15_rename_succeeds_iff : forall c i d m s g,
+  fix_a c = true -> Inv s -> d_find (py_dfs s i) d = Some g ->
+  ((exists s', step c (ORename i d m) s = (s', Ok tt)) <->
+   (NoDup (d_keys m) /\ incl (d_keys m) (d_keys (py_cols s g)) /\ NoDup (map (subst m) (d_keys (py_cols s g))))).
+Proof. exact rename_step_succeeds_iff. Qed.
+Print Assumptions c15_rename_succeeds_iff.
+
+Theorem c15_permutation_rename_succeeds : forall c g m s,
+  fix_a c = true -> df_ok s g ->
+  NoDup (d_keys m) -> incl (d_keys m) (d_keys (py_cols s g)) -> NoDup (map (subst m) (d_keys (py_cols s g))) ->
+  exists s', df_rename c g m s = (s', Ok tt) /\ py_cols s' g = renamed m (py_cols s g) /\
+             same_map (h5_grp s' g) (py_cols s' g).
+Proof. exact permutation_rename_succeeds. Qed.
+Print Assumptions c15_permutation_rename_succeeds.
+
+(* ---- (8) FULL: object identity of dataframes.  The model has one object per frame (its id g; the Python DataFrame
+   object and its h5py group are created together).  require_dataframe on a name the dataset serves — whatever the frame
+   holds, nothing included — hands back the catalogued object and changes nothing at all; on a new name it binds the name
+   to the object it returns; in both cases no name is re-bound (in any state, both code variants). *)
+Theorem c15_require_returns_catalogued : forall c i n s s' g,
+  ds_require_dataframe c i n s = (s', Ok g) ->
+  d_find (py_dfs s' i) n = Some g /\ (forall g0, d_find (py_dfs s i) n = Some g0 -> g = g0 /\ s' = s).
+Proof. exact require_returns_catalogued. Qed.
+Print Assumptions c15_require_returns_catalogued.
+
+Theorem c15_require_keeps_bindings : forall c i d s s' r j k g,
+  step c (ORequireDF i d) s = (s', r) -> d_find (py_dfs s j) k = Some g -> d_find (py_dfs s' j) k = Some g.
+Proof. intros c i d s s' r j k g E. exact (step_require_keeps_bindings c i d s s' r E j k g). Qed.
+Print Assumptions c15_require_keeps_bindings.
+
+(* a lookup ds[name] is pure *)
+Theorem c15_lookup_pure : forall i n s s' r,
+  ds_getitem i n s = (s', r) -> s' = s /\ (forall g, r = Ok g <-> d_find (py_dfs s i) n = Some g).
+Proof. exact ds_getitem_lookup. Qed.
+Print Assumptions c15_lookup_pure.
+
+(* every one of the 18 operations, whatever its outcome: a name a dataset serves before and after the step is served by
+   the same object (a handle kept by a caller stays THE dataframe of that name); the nine field-level operations do not
+   touch any dataset's catalogue at all *)
+Theorem c15_bindings_stable : forall c p s s' r j k g g',
+  fix_b c = true -> Inv s -> step c p s = (s', r) ->
+  d_find (py_dfs s j) k = Some g -> d_find (py_dfs s' j) k = Some g' -> g = g'.
+Proof. intros c p s s' r j k g g' FB I E. exact (step_bindings_stable c p s s' r FB I E j k g g'). Qed.
+Print Assumptions c15_bindings_stable.
+
+Theorem c15_field_ops_keep_catalogue : forall c p s s' r,
+  field_level p = true -> step c p s = (s', r) -> py_dfs s' = py_dfs s.
+Proof. intros c p s s' r FL E. exact (kd_step_field_level c p FL s s' r E). Qed.
+Print Assumptions c15_field_ops_keep_catalogue.
+
+(* the identity verdict ./check evaluates (Spec/CatalogueIdentSpec.v: chk_ident on the identity observation) is true on
+   every step of every history *)
+Theorem c15_ident_verdict_true : forall c ops,
+  fix_a c = true -> fix_b c = true -> forallb (fun x => snd x) (ident_trace c ops init_state) = true.
+Proof. exact ident_trace_true. Qed.
+Print Assumptions c15_ident_verdict_true.
 
 (* non-vacuity examples: Proofs/CatalogueWitness.v (repaired_rename_ok, repaired_move_ok) *)
 
